@@ -203,12 +203,17 @@ func ExploreRuns(bound int, run func(prefix []int) SchedRun, check func(r SchedR
 	st := SchedStats{Outcomes: map[string]int64{}}
 	var rec func(prefix []int)
 	rec = func(prefix []int) {
-		if st.Stuck || st.Diverged {
+		if st.Diverged || st.StuckRuns > 200 {
 			return
 		}
 		r := run(prefix)
 		if r.Stuck {
+			// Every execution of an abstract executor is isolated from the others (a process of its
+			// own), so a schedule in which a thread blocks outside the scheduler - typically: the
+			// preempted thread holds a lock the other one wants - is skipped, not fatal: the
+			// exploration goes on with its siblings and the count is reported.
 			st.Stuck = true
+			st.StuckRuns++
 			return
 		}
 		if r.Diverged {
@@ -261,6 +266,7 @@ type SchedStats struct {
 	MaxPoints int
 	Outcomes  map[string]int64
 	Stuck     bool
+	StuckRuns int64 // ExploreRuns only: schedules skipped because a thread blocked outside the scheduler
 	Diverged  bool
 }
 
